@@ -23,26 +23,32 @@ def finite(s):
 
 class P(Prop):
     ID = "C12"
-    THEOREMS = ["C12_history_free", "C12_repeatable", "C12_queries_read_only", "C12_balance_keeps_inputs"]
-    MAKE_TARGETS = ["theories/Props/C12.vo", "theories/Check/Check_C01.vo", "theories/Check/Check_C04.vo"]
+    THEOREMS = ["C12_history_free", "C12_repeatable", "C12_queries_read_only", "C12_balance_keeps_inputs",
+                "C12_electric_reads_only", "C12_electric_history_free", "C12_stale_balancing_input_masked",
+                "C12_electric_repeatable", "C12_shaft_repeatable", "C12_shaft_reads_only", "C12_shaft_history_free"]
+    MAKE_TARGETS = ["theories/Props/C12.vo", "theories/Check/Check_C01.vo", "theories/Check/Check_C04.vo", "theories/Check/Check_C12.vo"]
     CHECK_REQUIRE = ("From Coq Require Import QArith List Bool.\nFrom Feems Require Import Base.Num Base.Pchip Model.Bus Model.ElecBalance "
-                     "Model.Component Model.Shaft Model.Hybrid Check.Check_C01 Check.Check_C06 Check.Check_C04.\nOpen Scope Q_scope.")
+                     "Model.Component Model.Shaft Model.Hybrid Model.Machine Check.Check_C01 Check.Check_C06 Check.Check_C04 Check.Check_C12.\nOpen Scope Q_scope.")
     RULE = ("histories of 2-4 calculations on ONE system object with loads, statuses, sharing modes, breaker positions and the "
             "SERIES LENGTH changed between them, every input supplied afresh before each run, result queries (result, total fuel, "
             "mass fractions, CO2 emissions) interleaved and the run repeated: (electric) outputs after every run are compared in Coq "
             "with the balance model of THAT run's inputs, (mechanical) likewise with the shaft model, (front end) one "
             "MachineryCalculation object used for 2-3 operating profiles of different length; in every stream run k is also "
             "performed on a freshly built object and the results compared. Non-trivial = the series length changes")
-    QUICK_N = 60
+    QUICK_N = 100
     THOROUGH_N = 1500
     SHARD = 6
 
     def gen(self, rng, tier, override=None):
         out = []
         for _ in range(self.n_cases(tier, override)):
-            stream = rng.choice(["electric", "electric", "mechanical", "frontend"])
+            stream = rng.choice(["electric", "electric", "mechanical", "frontend", "emachine", "emachine", "lmachine"])
             K = rng.randint(2, 4)
-            if stream == "electric":
+            if stream == "emachine":
+                out.append(self.gen_emachine(rng))
+            elif stream == "lmachine":
+                out.append(self.gen_lmachine(rng))
+            elif stream == "electric":
                 c = sysrun.gen_electric_case(rng)
                 runs = [c["inp"]]
                 for _k in range(K - 1):
@@ -96,6 +102,307 @@ class P(Prop):
                 out.append({"stream": stream, "plant": {"comps": comps, "breakers": [[1, 2]] if nswb == 2 else [], "swbs": swbs}, "mech": mech, "runs": runs})
         return out
 
+
+    # ------------------------------------------------------------------------------------------
+    # field-level histories (Model/Machine.v): single-field setters, partial supplies, balances
+    def gen_emachine(self, rng):
+        plant = pg.gen_electric_plant(rng, max_swb=3, allow_ps=True, source_classes=["genset", "generator"])
+        for d in plant["comps"]:
+            if pg.kind_of(d["cls"]) == "Consumer":
+                d["cls"] = "load"
+        n = rng.randint(2, 5)
+
+        def full(n_):
+            inp = pg.gen_electric_inputs(rng, plant, n_)
+            return ["supply_all", {"n": n_, "sts": inp["sts"], "comps": [{k: v for k, v in ci.items() if k != "set"} for ci in inp["comps"]]}]
+        ops = [full(n), ["balance"]]
+        for _r in range(rng.randint(1, 3)):
+            kind = rng.choice(["partial", "partial", "partial", "full", "repeat"])
+            if kind == "full":
+                n = rng.randint(2, 5)
+                ops.append(full(n))
+            elif kind == "partial":
+                inp = pg.gen_electric_inputs(rng, plant, n)
+                for j, (d, ci) in enumerate(zip(plant["comps"], inp["comps"])):
+                    k = pg.kind_of(d["cls"])
+                    fields = ["pin"] if k == "Consumer" else ["status", "lsm"] if k == "Source" else ["status", "lsm", "pin"]
+                    for f in fields:
+                        if rng.random() < 0.35:
+                            ops.append(["set", j, f, ci[f]])
+                if plant["breakers"] and rng.random() < 0.4:
+                    ops.append(["breakers", inp["sts"]])
+            ops.append(["balance"])
+            if rng.random() < 0.3:
+                ops.append(["query"])
+            if rng.random() < 0.25:
+                ops.append(["balance"])
+        return {"stream": "emachine", "plant": plant, "ops": ops}
+
+    def gen_lmachine(self, rng):
+        has_pti = rng.random() < 0.6
+        mech = [{"name": f"me{k}", "cls": rng.choice(["main_engine", "main_engine_gb"]), "line": 1,
+                 "rated": Fraction(rng.randint(4, 40) * 250), "gb_eff": [Fraction(rng.randint(60, 64), 64)]} for k in range(rng.randint(1, 3))]
+        if has_pti:
+            mech.append({"name": "pti", "cls": "ptipto", "line": 1, "swb": 1, "rated": Fraction(rng.randint(2, 12) * 250), "eff": [Fraction(rng.randint(56, 64), 64)]})
+        for k in range(rng.randint(1, 2)):
+            mech.append({"name": f"ld{k}", "cls": rng.choice(["propeller", "mech_load"]), "line": 1,
+                         "rated": Fraction(rng.randint(8, 60) * 250), "eff": [Fraction(rng.randint(56, 64), 64)]})
+        rng.shuffle(mech)
+        plant = {"mech": mech, "lines": [1]}
+        n = rng.randint(2, 5)
+
+        def full(n_):
+            inp = pg.gen_mechanical_inputs(rng, plant, n_)
+            if rng.random() < 0.3:       # a profile with idle steps: the balance switches the engines off there
+                for d, ci in zip(mech, inp["comps"]):
+                    if "out" in ci:
+                        ci["out"] = [Fraction(0) if (t % 2 == 0) else x for t, x in enumerate(ci["out"])]
+            return ["supply_all", {"n": n_, "comps": [{k: v for k, v in ci.items() if k != "set"} for ci in inp["comps"]]}]
+        ops = [full(n), ["balance"]]
+        for _r in range(rng.randint(1, 3)):
+            kind = rng.choice(["partial", "partial", "partial", "full", "repeat"])
+            if kind == "full":
+                n = rng.randint(2, 5)
+                ops.append(full(n))
+            elif kind == "partial":
+                inp = pg.gen_mechanical_inputs(rng, plant, n)
+                for j, (d, ci) in enumerate(zip(mech, inp["comps"])):
+                    for f in ci:
+                        if f != "set" and rng.random() < 0.4:
+                            ops.append(["set", j, f, ci[f]])
+            ops.append(["balance"])
+            if rng.random() < 0.25:
+                ops.append(["balance"])
+        return {"stream": "lmachine", "plant": plant, "ops": ops}
+
+    @staticmethod
+    def _nonfinite(rows):
+        import math
+        return any(isinstance(x, float) and (math.isnan(x) or math.isinf(x)) for r in rows for x in r)
+
+    def e_apply(self, sysm, objs, plant, op, eff):
+        """one operation on the real object; `eff` keeps the last value SET for every field"""
+        from feems.components_model.utility import IntegrationMethod
+
+        def setf(j, f, v):
+            o = objs[j]
+            eff[j][f] = v
+            if f == "status":
+                o.status = np.array(v, dtype=bool)
+            elif f == "lsm":
+                o.load_sharing_mode = np.array([float(x) for x in v], dtype=float)
+            else:
+                o.power_input = np.array([float(x) for x in v], dtype=float)
+        if op[0] == "supply_all":
+            a = op[1]
+            sysm.set_time_interval(np.full(a["n"], 60.0), IntegrationMethod.sum_with_time)
+            if plant["breakers"]:
+                eff["sts"] = a["sts"]
+                sysm.set_bus_tie_status_all(np.array(a["sts"], dtype=bool).reshape(a["n"], len(plant["breakers"])))
+            for j, (d, ci) in enumerate(zip(plant["comps"], a["comps"])):
+                k = pg.kind_of(d["cls"])
+                for f in (["pin"] if k == "Consumer" else ["status", "lsm"] if k == "Source" else ["status", "lsm", "pin"]):
+                    setf(j, f, ci[f])
+            eff["n"] = a["n"]
+        elif op[0] == "set":
+            setf(op[1], op[2], op[3])
+        elif op[0] == "breakers":
+            eff["sts"] = op[1]
+            sysm.set_bus_tie_status_all(np.array(op[1], dtype=bool).reshape(len(op[1]), len(plant["breakers"])))
+
+    @staticmethod
+    def e_observe(plant, objs):
+        return [[float(x) for x in np.atleast_1d(o.power_output if pg.kind_of(d["cls"]) == "Source" else o.power_input)]
+                if pg.kind_of(d["cls"]) != "Consumer" else [] for d, o in zip(plant["comps"], objs)]
+
+    def run_emachine(self, case):
+        from feems.exceptions import InputError
+        plant = case["plant"]
+        sysm, objs = pg.build_electric_system(plant)
+        eff = {j: {} for j in range(len(objs))}
+        obs = {"balances": [], "fresh": [], "raised": False, "ops_done": 0, "rated": [float(o.rated_power) for o in objs]}
+        for k, op in enumerate(case["ops"]):
+            try:
+                if op[0] == "balance":
+                    # the same calculation on a freshly built object that is given the fields as the reused object HOLDS them
+                    # now (what an earlier balance wrote into the inputs of balancing units included): the state machine
+                    # says a balance reads exactly these fields, and of the held inputs of balancing units nothing
+                    held = [{"status": [bool(x) for x in np.atleast_1d(o_.status)], "lsm": [float(x) for x in np.atleast_1d(o_.load_sharing_mode)],
+                             "pin": [float(x) for x in np.atleast_1d(o_.power_input)]} if pg.kind_of(d["cls"]) != "Consumer"
+                            else {"pin": [float(x) for x in np.atleast_1d(o_.power_input)]} for d, o_ in zip(plant["comps"], objs)]
+                    for d, h in zip(plant["comps"], held):      # ... so those are blanked
+                        if pg.kind_of(d["cls"]) in ("PtiPto", "Storage"):
+                            h["pin"] = [0.0 if l == 0 else x for l, x in zip(h["lsm"], h["pin"])]
+                    sysm.do_power_balance_calculation()
+                    o = self.e_observe(plant, objs)
+                    obs["balances"].append(o)
+                    fs, fo = pg.build_electric_system(plant)
+                    feff = {j: {} for j in range(len(fo))}
+                    self.e_apply(fs, fo, plant, ["supply_all", {"n": eff["n"], "sts": eff.get("sts"), "comps": held}], feff)
+                    fs.do_power_balance_calculation()
+                    obs["fresh"].append(self.e_observe(plant, fo))
+                    if self._nonfinite(o):          # a bus without capacity: what it leaves behind is outside the model
+                        obs["ops_done"] = k + 1
+                        obs["poisoned"] = True
+                        return obs
+                elif op[0] == "query":
+                    res = sysm.get_fuel_energy_consumption_running_time()
+                    self.do_queries(res, ["total", "fractions", "emissions"])
+                else:
+                    self.e_apply(sysm, objs, plant, op, eff)
+            except (InputError, ValueError, IndexError) as e:
+                obs["raised"] = type(e).__name__
+                obs["ops_done"] = k + 1
+                return obs
+            obs["ops_done"] = k + 1
+        return obs
+
+    def l_apply(self, sysm, objs, plant, op, eff):
+        def setf(j, f, v):
+            d, o = plant["mech"][j], objs[j]
+            eff[j][f] = v
+            if f == "status":
+                sysm.set_status_main_engine_for_name_shaft_line_id(d["name"], d["line"], np.array(v, dtype=bool))
+            elif f == "shaft":
+                sysm.set_power_input_pti_pto_by_power_output_value_for_name_shaft_line_id(d["name"], d["line"], np.array([float(x) for x in v]))
+            elif f == "full":
+                sysm.set_full_pti_mode_for_name_shaft_line_id(d["name"], d["line"], np.array(v, dtype=bool))
+            else:
+                sysm.set_power_consumer_load_by_value_for_given_name_shaft_line_id(d["name"], d["line"], np.array([float(x) for x in v]))
+        if op[0] == "supply_all":
+            for j, (d, ci) in enumerate(zip(plant["mech"], op[1]["comps"])):
+                if d["cls"] == "ptipto":
+                    objs[j].status = np.ones(op[1]["n"], dtype=bool)
+                for f, v in ci.items():
+                    setf(j, f, v)
+            eff["n"] = op[1]["n"]
+        elif op[0] == "set":
+            setf(op[1], op[2], op[3])
+
+    @staticmethod
+    def l_observe(plant, objs):
+        eng = [([float(x) for x in np.atleast_1d(o.power_output)], [bool(x) for x in np.atleast_1d(o.status)])
+               for d, o in zip(plant["mech"], objs) if d["cls"] in ("main_engine", "main_engine_gb")]
+        pti = [[float(x) for x in np.atleast_1d(o.power_output)] for d, o in zip(plant["mech"], objs) if d["cls"] == "ptipto"]
+        return {"engines": eng, "pti": pti[0] if pti else None}
+
+    def run_lmachine(self, case):
+        from feems.exceptions import ConfigurationError, InputError
+        plant = case["plant"]
+        sysm, objs = pg.build_mechanical_system(plant)
+        eff = {j: {} for j in range(len(objs))}
+        obs = {"balances": [], "fresh": [], "raised": False, "rated": [float(o.rated_power) for o in objs]}
+        for k, op in enumerate(case["ops"]):
+            try:
+                if op[0] == "balance":
+                    # what a fresh object computes from the fields as the reused object HOLDS them now (statuses as written
+                    # back by earlier balances included): the state machine says exactly these fields are read
+                    held = {j: {"status": [bool(x) for x in np.atleast_1d(o.status)]} if d["cls"] in ("main_engine", "main_engine_gb")
+                            else {"shaft": [float(x) for x in np.atleast_1d(o.power_output)], "full": [bool(x) for x in np.atleast_1d(o.full_pti_mode)]}
+                            if d["cls"] == "ptipto" else {"out": [float(x) for x in np.atleast_1d(o.power_input)]}
+                            for j, (d, o) in enumerate(zip(plant["mech"], objs))}
+                    sysm.do_power_balance()
+                    obs["balances"].append(self.l_observe(plant, objs))
+                    fs, fo = pg.build_mechanical_system(plant)
+                    self.l_apply(fs, fo, plant, ["supply_all", {"n": eff["n"], "comps": [held[j] for j in range(len(fo))]}], {j: {} for j in range(len(fo))})
+                    fs.do_power_balance()
+                    obs["fresh"].append(self.l_observe(plant, fo))
+                else:
+                    self.l_apply(sysm, objs, plant, op, eff)
+            except (InputError, ConfigurationError, ValueError, IndexError) as e:
+                obs["raised"] = type(e).__name__
+                return obs
+        return obs
+
+    def term_emachine(self, case, obs):
+        plant = case["plant"]
+        comps = core.coq_list([f"ex_mk {d['swb']}%nat {pg.kind_of(d['cls'])} {core.coq_q(Fraction(r))}" for d, r in zip(plant["comps"], obs["rated"])])
+        s0 = f"{{| e_comps := {comps}; e_edges := {core.coq_edges(plant['breakers'])}; e_swbs := {core.coq_nat_list(plant['swbs'])}; e_sts := [] |}}"
+        ops = []
+
+        def setf(j, f, v):
+            if f == "status":
+                ops.append(f"ESetStatus {j}%nat {core.coq_bool_list(v)}")
+            elif f == "lsm":
+                ops.append(f"ESetLsm {j}%nat {core.coq_q_list(v)}")
+            else:
+                ops.append(f"ESetPin {j}%nat {core.coq_q_list(v)}")
+        for op in case["ops"][: obs["ops_done"]]:
+            if op[0] == "supply_all":
+                a = op[1]
+                for j, (d, ci) in enumerate(zip(plant["comps"], a["comps"])):
+                    k = pg.kind_of(d["cls"])
+                    for f in (["pin"] if k == "Consumer" else ["status", "lsm"] if k == "Source" else ["status", "lsm", "pin"]):
+                        setf(j, f, ci[f])
+                rows = a["sts"] if plant["breakers"] else [[] for _ in range(a["n"])]
+                ops.append("ESetBreakers " + core.coq_list([core.coq_bool_list(r) for r in rows]))
+            elif op[0] == "set":
+                setf(op[1], op[2], op[3])
+            elif op[0] == "breakers":
+                ops.append("ESetBreakers " + core.coq_list([core.coq_bool_list(r) for r in op[1]]))
+            elif op[0] == "balance":
+                ops.append("EBalance")
+            else:
+                ops.append("EQuery")
+        o = core.coq_list([core.coq_list([core.coq_fl_list(r) for r in b]) for b in obs["balances"]])
+        return f"check_emachine {s0}\n  {core.coq_list(ops)}\n  {o} {core.coq_bool(bool(obs['raised']))}"
+
+    def term_lmachine(self, case, obs):
+        plant = case["plant"]
+        mech = plant["mech"]
+        loads = [j for j, d in enumerate(mech) if d["cls"] in ("propeller", "mech_load")]
+        engs = [j for j, d in enumerate(mech) if d["cls"] in ("main_engine", "main_engine_gb")]
+        pti = [j for j, d in enumerate(mech) if d["cls"] == "ptipto"]
+        if obs["raised"]:
+            return "false"
+        s0 = ("{| l_lds := " + core.coq_list(["[]" for _ in loads]) + "; l_machine := "
+              + ("Some {| p_shaft := []; p_full := []; p_elec := [] |}" if pti else "None") + "; l_engs := "
+              + core.coq_list([f"{{| g_rated := {core.coq_q(Fraction(obs['rated'][j]))}; g_status := []; g_pout := [] |}}" for j in engs]) + " |}")
+        ops = []
+
+        def setf(j, f, v):
+            if f == "status":
+                ops.append(f"LSetEngineStatus {engs.index(j)}%nat {core.coq_bool_list(v)}")
+            elif f == "shaft":
+                ops.append(f"LSetPtiShaft {core.coq_q_list(v)}")
+            elif f == "full":
+                ops.append(f"LSetFull {core.coq_bool_list(v)}")
+            else:
+                ops.append(f"LSetLoad {loads.index(j)}%nat {core.coq_q_list(v)}")
+        for op in case["ops"]:
+            if op[0] == "supply_all":
+                for j, ci in enumerate(op[1]["comps"]):
+                    for f, v in ci.items():
+                        setf(j, f, v)
+            elif op[0] == "set":
+                setf(op[1], op[2], op[3])
+            elif op[0] == "balance":
+                ops.append("LBalance")
+        scale = core.coq_q(Fraction(max(obs["rated"])))
+        items = []
+        for b in obs["balances"]:
+            e = core.coq_list([f"({core.coq_fl_list(p)}, {core.coq_bool_list(st)})" for p, st in b["engines"]])
+            items.append(f"({e}, {'Some ' + core.coq_fl_list(b['pti']) if b['pti'] is not None else 'None'})")
+        return f"check_lmachine {s0}\n  {core.coq_list(ops)} {scale}\n  {core.coq_list(items)}"
+
+    def oracle_machine(self, case, obs):
+        if obs.get("raised"):
+            return f"an operation of a consistent history raised {obs['raised']}"
+        for k, (a, b) in enumerate(zip(obs["balances"], obs["fresh"])):
+            if case["stream"] == "emachine":
+                rows = list(zip(a, b))
+            else:
+                rows = [(x[0], y[0]) for x, y in zip(a["engines"], b["engines"])] + ([(a["pti"], b["pti"])] if a["pti"] is not None else [])
+                if [x[1] for x in a["engines"]] != [y[1] for y in b["engines"]]:
+                    return f"balance no. {k + 1} on the reused shaft line leaves other engine statuses than on a fresh object given the same fields"
+            for j, (x, y) in enumerate(rows):
+                for t, (u, v) in enumerate(zip(x, y)):
+                    fu, fv = (u == u and abs(u) != float("inf")), (v == v and abs(v) != float("inf"))
+                    if fu != fv or (fu and abs(u - v) > 1e-9 * max(1.0, abs(v), max(obs["rated"]))):
+                        return (f"balance no. {k + 1} on the reused object gives {u} for component {j} at step {t}; a freshly built object "
+                                f"given the same fields gives {v}")
+        return None
+
     # ------------------------------------------------------------------------------------------
     def do_queries(self, res, qs):
         from feems.fuel import FuelConsumerClassFuelEUMaritime as C
@@ -116,6 +423,12 @@ class P(Prop):
     def run(self, case):
         from feems.exceptions import InputError
         st = case["stream"]
+        if st == "emachine":
+            with np.errstate(all="ignore"):
+                return self.run_emachine(case)
+        if st == "lmachine":
+            with np.errstate(all="ignore"):
+                return self.run_lmachine(case)
         obs = {"runs": []}
         held = []
         try:
@@ -228,6 +541,10 @@ class P(Prop):
         if "rejected" in obs:
             return "true"
         st = case["stream"]
+        if st == "emachine":
+            return self.term_emachine(case, obs)
+        if st == "lmachine":
+            return self.term_lmachine(case, obs)
         parts = []
         if st == "electric":
             for inp, r in zip(case["runs"], obs["runs"]):
@@ -242,6 +559,8 @@ class P(Prop):
     def oracle(self, case, obs):
         if "rejected" in obs:
             return None
+        if case["stream"] in ("emachine", "lmachine"):
+            return self.oracle_machine(case, obs)
         for k, r in enumerate(obs["runs"]):
             if not finite(r["first"]) or not finite(r["fresh"]):
                 continue
@@ -261,10 +580,22 @@ class P(Prop):
         return None
 
     def nontrivial(self, case, obs):
+        if case["stream"] in ("emachine", "lmachine"):
+            return any(op[0] == "set" for op in case["ops"])
         ns = [r["n"] if "n" in r else len(r["prop"]) for r in case["runs"]]
         return len(set(ns)) > 1
 
     def tags(self, case, obs):
+        if case["stream"] in ("emachine", "lmachine"):
+            t = ["stream=" + case["stream"], f"balances={sum(1 for op in case['ops'] if op[0] == 'balance')}"]
+            t += sorted({"partial-set:" + str(op[2]) for op in case["ops"] if op[0] == "set"})
+            if obs.get("poisoned"):
+                t.append("history-cut-at-a-balance-on-a-bus-without-capacity")
+            if any(a[0] == "balance" and b[0] == "balance" for a, b in zip(case["ops"], case["ops"][1:])):
+                t.append("balance-repeated-at-once")
+            if sum(1 for op in case["ops"] if op[0] == "supply_all") > 1:
+                t.append("complete-re-supply")
+            return t
         t = ["stream=" + case["stream"], f"runs={len(case['runs'])}"]
         ns = [r["n"] if "n" in r else len(r["prop"]) for r in case["runs"]]
         if len(set(ns)) > 1:
